@@ -10,6 +10,10 @@
 (*    The specification's own round trip Lex(Join(..)) = objects is an     *)
 (*    invariant checked by TLC before any code is involved.                *)
 (*  Family "dsc": DSC comment layouts.                                     *)
+(*  Family "strbody": every literal string ( body ) with a body up to      *)
+(*    MaxLen over the bytes that drive the string scanner's state: CR, LF, *)
+(*    backslash, parentheses, an octal and a non-octal digit, n, a letter. *)
+(*  Families "hexbody", "a85body": the same for < body > and <~ body ~>.   *)
 (***************************************************************************)
 EXTENDS PSLex, Json, CSV
 
@@ -151,10 +155,18 @@ GrowSpellSim ==
           IN /\ str' = str \o sep \o x.sp
              /\ objs' = Append(objs, x.o)
     /\ n' = n + 1 /\ UNCHANGED phase
+BodyFamilies == {"strbody", "hexbody", "a85body"}
+BodyAlpha == CASE Family = "strbody" -> {13, 10, 92, 40, 41, 49, 56, 110, 97}
+               [] Family = "hexbody" -> {48, 57, 97, 70, 102, 32, 10, 0, 103, 60}         \* 0 9 a F f SP LF NUL g <
+               [] Family = "a85body" -> {33, 117, 122, 57, 32, 10, 118, 115}              \* ! u z 9 SP LF v s
+               [] OTHER -> {}
+GrowStrBody == /\ Family \in BodyFamilies /\ Len(str) < MaxLen
+               /\ \E c \in BodyAlpha : str' = Append(str, c)
+               /\ UNCHANGED <<objs, n, phase>>
 PickDsc == /\ Family = "dsc" /\ phase = "pick"
            /\ \E t \in DscTexts : str' = t
            /\ phase' = "done" /\ UNCHANGED <<objs, n>>
-Next == GrowBytes \/ GrowSpell \/ GrowSpellSim \/ PickDsc
+Next == GrowBytes \/ GrowSpell \/ GrowSpellSim \/ PickDsc \/ GrowStrBody
 
 \* token equality: reals by value (d1 * 10^e1 = d2 * 10^e2), everything else structurally
 RECURSIVE Pow10(_)
@@ -171,8 +183,12 @@ SeqEq(x, y) == Len(x) = Len(y) /\ \A j \in 1..Len(x) : TokEq(x[j], y[j])
 SpecRoundTrip == (Family \in {"spell", "spellsim"} /\ n > 0) =>
                     LET r == Lex(str) IN r.ok /\ SeqEq(r.toks, objs) /\ r.dsc = <<>>
 
-Res == Lex(str)
-Vector == [inp |-> str, ok |-> Res.ok, open |-> Res.open, toks |-> (IF Family \in {"spell", "spellsim"} THEN objs ELSE Res.toks),
+Text == CASE Family = "strbody" -> <<40>> \o str \o <<41>>
+          [] Family = "hexbody" -> <<60>> \o str \o <<62>>
+          [] Family = "a85body" -> <<60, 126>> \o str \o <<126, 62>>
+          [] OTHER -> str
+Res == Lex(Text)
+Vector == [inp |-> Text, ok |-> Res.ok, open |-> Res.open, toks |-> (IF Family \in {"spell", "spellsim"} THEN objs ELSE Res.toks),
            dsc |-> Res.dsc, bal |-> Balanced(IF Family \in {"spell", "spellsim"} THEN objs ELSE Res.toks), fam |-> Family]
 Emit == (str # <<>>) => CSVWrite("%1$s", <<ToJson(Vector)>>, OutFile)
 =============================================================================
